@@ -1,3 +1,42 @@
-(* placeholder until the totality proofs are written *)
-From Coq Require Import ZArith.
-Theorem C04_placeholder : True. Proof. exact I. Qed.
+(* C04 - any received bytes give a result or a documented exception, never a crash/hang.  Statements only. *)
+From Coq Require Import ZArith List Bool String.
+From UDS Require Import Lib.Bytes Lib.ErrM Model.Message Model.Client Model.Services Model.Svc_Did Model.Svc_Dtc
+  Model.History Proofs.C05_lemmas Proofs.Client_lemmas Proofs.C04_lemmas.
+Import ListNotations.
+Open Scope Z_scope.
+
+(* every modelled client call, every configuration and client state, every reply schedule of arbitrary byte strings
+   (and connection faults): once the request is on the wire the outcome is a value or one of the documented errors
+   (value / config / not-implemented / timeout / negative / invalid / unexpected / connection), never an internal
+   one (index, struct, attribute, type, overflow, assertion, key) and never out-of-fuel.  Termination itself is by
+   construction: every model function is a total Coq function. *)
+Theorem C04_total : forall cfg st c now s,
+  let '(res, _, _, _, tr) := run_inner cfg st c now s in sent tr <> [] -> ok_cres res.
+Proof. exact run_inner_ok. Qed.
+Print Assumptions C04_total.
+
+(* the receive loop alone, for any request and schedule *)
+Theorem C04_receive_loop : forall cfg p2star rsid spr deadline s single (star : bool) now,
+  ok_cres (wl_res (wait_loop cfg p2star rsid spr deadline single star now s)).
+Proof. exact wait_loop_ok. Qed.
+Print Assumptions C04_receive_loop.
+
+(* "never loops without consuming input": each decoding loop, started with fuel S (length data), never runs out,
+   because every round advances the cursor (statement: acceptable result for any fuel exceeding the bytes left) *)
+Theorem C04_multi_did_loop : forall pc requested d fuel offset vals,
+  (List.length d - offset < fuel)%nat -> ok_res (rdbi_loop fuel pc requested d offset vals).
+Proof. exact rdbi_loop_ok. Qed.
+Theorem C04_dtc_record_loop : forall pc sub ws d fuel cur acc,
+  (List.length d - cur < fuel)%nat -> ok_res (loop_records fuel pc sub ws d cur acc).
+Proof. exact loop_records_ok. Qed.
+Theorem C04_snapshot_loops : forall pc d fuel cur,
+  (List.length d - cur < fuel)%nat ->
+  (forall acc, ok_res (loop_snap_by_dtc fuel pc d cur acc)) /\ (forall acc, ok_res (loop_snap_by_rec fuel pc d cur acc)).
+Proof. intros pc d fuel cur H. split; intros acc; [apply loop_snap_by_dtc_ok|apply loop_snap_by_rec_ok]; exact H. Qed.
+Theorem C04_extended_data_loops : forall pc size recnum d fuel cur,
+  (cur <= List.length d)%nat -> (List.length d - cur < fuel)%nat ->
+  (forall acc, ok_res (loop_ext_by_dtc fuel pc size d cur acc)) /\ (forall acc, ok_res (loop_ext_by_rec fuel pc size recnum d cur acc)).
+Proof. intros pc size recnum d fuel cur Hc H. split; intros acc; [apply loop_ext_by_dtc_ok|apply loop_ext_by_rec_ok]; assumption. Qed.
+Theorem C04_dtc_decoder : forall cfg sub a d, ok_res (rdtci_decode cfg sub a d).
+Proof. exact rdtci_decode_ok. Qed.
+Print Assumptions C04_dtc_decoder.
